@@ -9,8 +9,11 @@ package main
 
 import (
 	"encoding/hex"
+	"encoding/json"
 	"fmt"
 	"math/big"
+	"os"
+	"path/filepath"
 	"sort"
 	"strings"
 
@@ -208,7 +211,7 @@ func (e *env) genBridgeCall() bcCase {
 		k.BlockGas = []int64{0, -1, -1, 100_000, 5_000_000}[r.Intn(5)]
 	}
 	k.Refund = []string{"same", "same", "poor", "rich"}[r.Intn(4)]
-	k.SendCallTo = r.Chance(15)
+	k.SendCallTo = r.Chance(22)
 	k.SenderIsRefund = r.Chance(50)
 	k.ViaEVM = r.Chance(25)
 	if e.search {
@@ -220,12 +223,42 @@ func (e *env) genBridgeCall() bcCase {
 	return k
 }
 
+// corpus/C18/*.json: recorded failing inputs of past findings, run first on every check
+func (e *env) corpusFiles() []bcCase {
+	var out []bcCase
+	files, _ := filepath.Glob(filepath.Join(corpusDir(), "C18", "*.json"))
+	sort.Strings(files)
+	for _, f := range files {
+		var r struct {
+			Case bcCase `json:"case"`
+		}
+		bz, err := os.ReadFile(f)
+		lib.Must(err)
+		lib.Must(json.Unmarshal(bz, &r))
+		out = append(out, r.Case)
+	}
+	return out
+}
+
+func corpusDir() string {
+	if d := getenv("VERIF_CORPUS"); d != "" {
+		return d
+	}
+	for _, d := range []string{"../corpus", "corpus", "/verif/corpus"} {
+		if st, err := os.Stat(d); err == nil && st.IsDir() {
+			return d
+		}
+	}
+	return "/verif/corpus"
+}
+
 func (e *env) bridgeCallCorpus() []string {
 	var out []string
+	for _, k := range e.corpusFiles() {
+		out = append(out, e.bridgeCallCase(k))
+	}
 	for _, k := range []bcCase{
-		// the model's _refuted witness and its poor-refund sibling
-		{Tokens: [][2]int64{{0, 10}}, Target: "writerevert", Refund: "rich"},
-		{Tokens: [][2]int64{{0, 10}}, Target: "writerevert", Refund: "poor"},
+		{Tokens: [][2]int64{{0, 10}}, Target: "writerevert", Refund: "rich", SendCallTo: true},
 		// same-holder non-vacuity example: several tokens, a duplicate, contract writes then reverts
 		{Tokens: [][2]int64{{1, 5}, {0, 10}, {1, 2}}, Target: "writerevert", Refund: "same"},
 		// disabled pair at first / middle / last coin
